@@ -360,6 +360,7 @@ impl Property for C04 {
                     class: "violation".into(),
                     case: model_json(&ms[mi], s),
                     detail: format!("executions in different processes produced different traces (fingerprints {fps:?})"),
+                    shard: None,
                 });
             }
         }
